@@ -151,7 +151,10 @@ def run_one(cfg, chooser=None, alphabet=None, rounds=2, script=None, exact=None)
         units.append(u)
     bus = DrawBus(units, chooser, alphabet, rounds, script, exact)
     avail = cfg["avail"]
-    seq = Commissioning(available_addresses=None if avail is None else list(avail),
+    # the permitted set is "an iterable of addresses": every spelling must behave like the list (default spelling: list)
+    spell = {"list": list, "tuple": tuple, "set": set, "frozenset": frozenset, "iter": lambda a: iter(list(a)),
+             "generator": lambda a: (x for x in list(a)), "dict-keys": lambda a: dict.fromkeys(a).keys(), "range-like": list}[cfg.get("spelling", "list")]
+    seq = Commissioning(available_addresses=None if avail is None else spell(avail),
                         readdress=cfg["readdress"], dry_run=cfg["dry_run"])
     cap = 80 + (rounds + 3) * (len(units) + 1) * (25 * 8 + 15) + 50
     kind, val, n = G.run_sequence(seq, bus, cap)
@@ -250,6 +253,14 @@ def run_shard(shard):
                     res["traces"] += 1
                     res["transitions"] += cnt
                     res["distinct"].add((r, tuple(u.short for u in units), pname))
+                # the same run with the permitted set spelled in every other way an iterable can be
+                if avail is not None:
+                    for spelling in ("tuple", "set", "frozenset", "iter", "generator", "dict-keys"):
+                        cfg = dict(pre=list(pre), avail=avail, readdress=rd, dry_run=dry, pattern="ascending", spelling=spelling)
+                        units, bus, kind, val, cnt = run_one(cfg, None, None, 9, PATTERNS["ascending"])
+                        judge(res, cfg, None, units, kind, val, cnt, bus)
+                        res["evaluations"] += 1
+                        res["transitions"] += cnt
         sample(res, {"slice": "B", "n": n, "readdress": rd, "dry_run": dry, "patterns": list(PATTERNS)})
     elif k == "F":
         n = shard[1]
@@ -292,7 +303,7 @@ def replay(case):
     """Re-run exactly one (configuration, draw history) and judge it."""
     import os
     res = new_result()
-    cfg = {k: case[k] for k in ("pre", "avail", "readdress", "dry_run") if k in case}
+    cfg = {k: case[k] for k in ("pre", "avail", "readdress", "dry_run", "spelling") if k in case}
     if "faults" in case:
         cfg["faults"] = case["faults"]
     hist = [list(r) for r in case.get("history") or []]
